@@ -23,6 +23,8 @@ def main(argv: list[str] | None = None) -> int:
     lt.add_argument("only", nargs="?")
     rt = sub.add_parser("rdftest")
     rt.add_argument("only", nargs="?")
+    pt = sub.add_parser("pbtest")
+    pt.add_argument("only", nargs="?")
     args = ap.parse_args(argv)
 
     from .loader import load_program
@@ -49,6 +51,14 @@ def main(argv: list[str] | None = None) -> int:
         for f_ in failures:
             print("  MISMATCH " + f_[:400])
         print(f"jstat langtest: {n} snippet functions, {len(failures)} mismatches")
+        return 0 if not failures else 2
+    if args.cmd == "pbtest":
+        from . import pbtest
+
+        n, failures = pbtest.run(verbose=True, only=args.only)
+        for f_ in failures:
+            print("  MISMATCH " + f_[:500])
+        print(f"jstat pbtest: {n} snippet functions, {len(failures)} mismatches")
         return 0 if not failures else 2
     if args.cmd == "rdftest":
         from . import rdftest
